@@ -1396,6 +1396,17 @@ class Scan:
             if st[0] in ("rows", "hash"):
                 self.bad.append("%s is a sequence in %s order (%s)" % (show(t, 3), st[0], st[1]))
             return
+        if k == "method" and t[2] in ("first", "last", "nth", "head", "tail"):
+            # the first / last row of each group: which row that is depends on the order of the rows, unless the frame
+            # was put into a determined order first
+            r = t[1]
+            while r[0] == "sub":
+                r = r[1]
+            if r[0] == "method" and r[2] == "groupby" and T.is_frame(r[1]):
+                st = T.order(r[1])
+                if st[0] in ("rows", "hash"):
+                    self.bad.append("%s picks the %s row of each group of a frame in %s order (%s): the value depends on the order of the input rows" % (show(t, 3), t[2], st[0], st[1]))
+                return
         if k == "method" and T.is_frame(t[1]):
             m = t[2]
             if T.is_frame(t):
@@ -1574,6 +1585,11 @@ def rule_L3(ctx, L):
                 why = "the default for %r is guarded by the presence of column %r" % (col, tested)
             elif absent_when_true != pol:
                 why = "the default for %r is assigned when the column is PRESENT" % col
+            elif ((val[0] == "call" and isinstance(val[1], str) and val[1].split(".")[-1] == "Series" and not kwget(val[3], "index", None))
+                  or (val[0] == "method" and val[2] == "Series" and val[1][0] == "global" and not kwget(val[4] if len(val) > 4 else (), "index", None))):
+                # a Series carries an index of its own (0..n-1); assigned to a column of a frame whose rows were filtered
+                # it is aligned on labels, not on positions: the rows whose labels it lacks get NaN
+                why = "the default for %r is assigned as %s, a Series with a fresh 0..n-1 index: on a frame that lost rows to the filters the assignment aligns on index labels and leaves NaN in the rows with labels >= n" % (col, show(val, 2))
             elif val[0] != "const":
                 raise Unsupported("default for %r is the non-literal %s" % (col, show(val, 2)))
             elif not (isinstance(val[1], (int, float)) and not isinstance(val[1], bool) and float(val[1]) == want):
